@@ -325,6 +325,7 @@ def run(ctx: Ctx) -> None:
     _scratch_type(ctx)
     _final_agreement(ctx, fi)
     _wiring(ctx, fi)
+    _constructor_fields(ctx)
     from sa.checks import c07_bound
     c07_bound.check(ctx)
 
@@ -1006,3 +1007,44 @@ def _final_agreement(ctx: Ctx, fi: FuncInfo) -> None:
            "the pairing summation deviates from rules 9/10: "
            + (problems[0] if problems else f"only {n} cases"),
            construct="pairing summation vs rules 9/10")
+
+
+
+def _constructor_fields(ctx: Ctx) -> None:
+    """D7.3 continued: the limits that `Errors.evaluate` reads from the
+    instance are the ones the constructor was given: every statement
+    `obj.F = <validated> P` of `Instance.__new__` whose field F carries the
+    name of a constructor parameter stores that very parameter (siblings:
+    six `obj.X = check_int_range(X, "X", ...)` lines)."""
+    repo = ctx.repo
+    fi = repo.func("moptipyapps.ttp.instance", "Instance.__new__")
+    params = set(fi.params)
+    n = 0
+    for st in ast.walk(fi.node):
+        if not (isinstance(st, ast.Assign) and len(st.targets) == 1
+                and isinstance(st.targets[0], ast.Attribute)
+                and isinstance(st.targets[0].value, ast.Name)):
+            continue
+        fld = st.targets[0].attr
+        if fld not in params:
+            continue
+        v = st.value
+        label = None
+        if isinstance(v, ast.Call) and v.args and ast.unparse(
+                v.func).endswith("check_int_range"):
+            if len(v.args) > 1 and isinstance(v.args[1], ast.Constant):
+                label = v.args[1].value
+            v = v.args[0]
+        if not isinstance(v, ast.Name):
+            continue
+        n += 1
+        cross = v.id in params and v.id != fld
+        ctx.ob("D7.3", fi, st, not cross,
+               f"obj.{fld} stores the constructor argument `{v.id}`"
+               + (f" (validated under the label {label!r})" if label else "")
+               if not cross else
+               f"obj.{fld} stores the constructor argument `{v.id}`, not "
+               f"`{fld}`: the error count and its bound use another limit "
+               "than the one the instance was created with",
+               construct=f"constructor field {fld}")
+    ctx.floor("constructor_limit_fields", n, 6)
